@@ -131,8 +131,9 @@ func (f *forced) run(steps []step) error {
 			g := s.gates[st.O]
 			select {
 			case <-g.started:
-			case <-time.After(f.wt):
-				return f.fail("script completes %s but it was never called", st.O)
+			default:
+				// the loop is blocked and everything it launched has reached its gate: it will never be called
+				return f.fail("script completes %s but it was not called", st.O)
 			}
 			mark := s.nlines()
 			g.release <- answer{r: st.R, p: st.P}
@@ -163,8 +164,8 @@ func (f *forced) run(steps []step) error {
 		case "fire":
 			select {
 			case <-s.timerArmed:
-			case <-time.After(f.wt):
-				return f.fail("script fires the bid timeout but it was never armed")
+			default:
+				return f.fail("script fires the bid timeout but it was not armed")
 			}
 			s.rec(line{"e": "fire"})
 			s.timerCh <- time.Now()
@@ -177,6 +178,9 @@ func (f *forced) run(steps []step) error {
 		if err := f.settle(); err != nil {
 			return err
 		}
+	}
+	if f.pc == "loop" {
+		return f.fail("the script ended but the loop has not exited")
 	}
 	if _, ok := s.wait(0, is("done"), f.wt); !ok {
 		return f.fail("the order monitor did not terminate after the script (pc=%s)", f.pc)
